@@ -672,8 +672,11 @@ class InProtocolBase(ProtocolMixin):
                                    "%%r: %s" % str(e).replace("%", "%%"))
 
             astz = cls_attrs.as_timezone
-            if astz:
-                retval = retval.astimezone(cls_attrs.as_time_zone)
+            if astz is not None:
+                if retval.tzinfo is None:
+                    retval = retval.replace(tzinfo=astz)
+                else:
+                    retval = _astimezone(retval, astz, string)
 
         else:
             retval = self.datetime_from_unicode_iso(cls, string)
